@@ -369,4 +369,6 @@ def exit_value(prog, fn, lp, models=None, opaque=()):
     ne = sym.normal_exit(fn, lp["head"], lp["body"])
     if ne is None:
         raise sym.Undecided("loop has no recognisable normal exit")
-    return ev._run(fn, ne, env, {lp["head"]: 1}, 0)
+    r = ev._run(fn, ne, env, {lp["head"]: 1}, 0)
+    lp["exit_effects"] = list(ev.effects)       # opaque calls made between the loop's normal exit and the return
+    return r
